@@ -399,8 +399,13 @@ Definition batch (s : cstate) (beh : nat -> list cop) (h : nat) : cstate :=
     end
   else s.
 
+(* a handle callback delivered by the loop.  Legal until the close callback:
+   libuv does deliver a callback to a handle that is already closing in one
+   place -- uv__wait_children() runs the exit callbacks of all children
+   collected in one pass, also of a process handle that an earlier exit callback
+   of the same pass closed *)
 Definition h_cb (s : cstate) (beh : nat -> list cop) (h : nat) : cstate :=
-  if usable s h then ccallback s beh (EHCb h) else s.
+  if hvalid s h && negb (h_closed (hget s h)) then ccallback s beh (EHCb h) else s.
 
 Definition fp_stat (s : cstate) (h : nat) : cstate :=
   let x := hget s h in
